@@ -17,3 +17,5 @@ def run(ck):
     region.r5_8_cached_field_follows_cursor(ck, P)
     region.r6_7_normalise_after_last_change(ck, P, 'C05-R10')
     region.r5_11_constructed_rectangle_validated(ck, P)
+    region.r5_12_degenerate_rectangle_follows_the_operator(ck, P)
+    region.r5_13_box_difference_keeps_its_width(ck, P)
